@@ -9,7 +9,7 @@ META = dict(
     coq_targets=['CheckArray.vo'],
     rule="start {empty, non-empty (zero-filled, >= 12 KB so that only the data file can hit the "
          "file-size limit)} x 1-D..3-D x number of chunks 1..n x failure position 0..n-1 x "
-         "failure kind {iterable raises, wrong trailing shape, wrong rank, zero-length chunk of a wrong shape, unconvertible item, "
+         "failure kind {iterable raises, wrong trailing shape, wrong rank (too high / too low), zero-length chunk of a wrong shape, unconvertible item, "
          "RLIMIT_FSIZE write failure at chunk boundary -1/0/+1 byte, mid-element, mid-row}; "
          "a case is non-trivial if the failure happens after at least one completed chunk or "
          "inside a write; distinct by (type, shape, plan)",
@@ -36,6 +36,10 @@ def bad_item(kind, rng, nt, bo, tail):
         return nd_spec(small_values(rng, bad, own))
     if kind == 'rank':
         return nd_spec(small_values(rng, (2,) + t + (2,), own))
+    if kind == 'lowrank':    # ONE row without the leading axis (rank one too low): not a chunk of rows
+        if not t:
+            return dict(kind='obj')
+        return nd_spec(small_values(rng, t, own))
     if kind == 'shape0':     # no elements, but a shape that does not fit: still refused
         if t:
             c = rng.choice(['list', 'rank', 'dim', 'mid'])
@@ -83,9 +87,9 @@ def gen(ctx):
                     if ctx.quick and (ti + nchunks + len(tail)) % 2:
                         continue
                     for pos in range(nchunks):
-                        kinds = ['raise', 'shape', 'rank', 'unconv', 'shape0', 'w']
+                        kinds = ['raise', 'shape', 'rank', 'unconv', 'shape0', 'lowrank', 'w']
                         if ctx.quick:
-                            kinds = [kinds[(ti + pos + nchunks) % 5], 'shape0', 'w'] if (ti + pos) % 2 else [kinds[(ti + pos + nchunks) % 5], 'w']
+                            kinds = [kinds[(ti + pos + nchunks) % 5], ('shape0', 'lowrank')[pos % 2], 'w'] if (ti + pos) % 2 else [kinds[(ti + pos + nchunks) % 5], 'w']
                         for kind in kinds:
                             items = []
                             for i in range(nchunks):
